@@ -242,7 +242,7 @@ func init() {
 		"All sequences of up to 3 (quick) / 4 (thorough) change sets (creates on levels 0-2 with/without key id and compression, deletes of known and unknown tables, compaction-shaped create+delete sets) with deletionsRewriteThreshold 0, 2 and 10000 (automatic rewrites at every possible position): after every addChanges the replayed file, the in-memory manifest and a re-open equal the reference table map. For every sequence up to length 2 (3) the file is cut at EVERY byte (replay must give the state after the last complete change set and its offset) and every byte is flipped (replay must fail or give a prefix state).",
 		"Drives manifestFile.addChanges / ReplayManifestFile directly on real files.",
 		"recursive enumeration of change-set sequences; distinct = distinct (threshold, sequence)",
-		[]Stage{en("c17manifest", 16, 90, prm("depth", 3, "fault_depth", 2))},
+		[]Stage{en("c17manifest", 16, 120, prm("depth", 3, "fault_depth", 3))},
 		[]Stage{en("c17manifest", 16, 900, prm("depth", 4, "fault_depth", 3))})
 
 	crashPlan := func(text, note string, quick, thorough []Stage) func(q bool) *Plan {
